@@ -179,6 +179,18 @@ CHECKS = {
          "witnesses of their class. Caller-supplied compression / correlation flag bits are outside the statement.",
     technique="TLA+ spec + TLC; TLC-enumerated message shapes and mutations run through the real codec; TLC trace validation (monitor)",
     ref="6/C06"),
+ "C19": dict(
+    category="model_checking",
+    text="URI.tla defines Parse and Print over an abstract text algebra (protocol x object shape x location shape x port form) and TLC checks "
+         "RoundTrip and FixedPoint over the complete space; Gen_URI.tla prints that space; every abstract text is concretised with several "
+         "seeded witnesses (letter case, hostnames, IPv4, bracketed IPv6 spellings, empty host, unix socket paths, ports in every form int() "
+         "accepts, tag lists with duplicates and empty tags) and fed to the real URI parser; accepted URIs are printed, re-parsed, compared, "
+         "hashed, sent through all four serializers, through Proxy state, and through a name-server registration; accepted URIs that differ "
+         "only in location are compared pairwise; TLC validates all recorded facts against Trace_URI.tla.",
+    note="Trusted: the concretisation table (a defect needing one particular spelling outside it can be missed); TLC. Which strings are accepted "
+         "is not part of the statement; the model's acceptance is reported for information only.",
+    technique="TLA+ spec + TLC; TLC-enumerated abstract inputs concretised and run through the real parser/printer/serializers; TLC trace validation",
+    ref="6/C19"),
 }
 NOT_YET = {}
 ALL = ["C%02d" % i for i in range(1, 21)]
